@@ -236,6 +236,10 @@ def search(rep: C.Report, tier: str, broken):
     va, vb = 0.3 * h0.vJ + 0.05, 0.75 * h0.vJ
     (_, _, TpA, TmA), (_, _, TpB, TmB) = h0.findMatching(va), h0.findMatching(vb)
     cuts = [(float(TpA), None), (None, float(TmA)), (float(TpA), float(TmB)), (float(TpB), float(TmA))]
+    # the low-T range ends where only the detonations CLOSEST to the Jouguet velocity exceed it (T- falls with vw above vJ): the slowest admissible
+    # detonation is then a few 1e-3 above vJ
+    for dv_ in ((0.002, 0.03) if tier == "quick" else (0.0005, 0.002, 0.005, 0.03, 0.1)):
+        cuts.append((None, float(h0.findMatching(h0.vJ + dv_)[3])))
     if tier == "thorough":
         for _ in range(6):
             v1, v2 = sorted((r.uniform(0.1, 0.95) * h0.vJ, r.uniform(0.1, 0.95) * h0.vJ))
